@@ -2,16 +2,15 @@
    an expression of Spec/JsSyntax.v. *)
 From Soy Require Import Model.Bytes Model.Num Model.Values Model.Outcome Model.Ast Model.JsGen Generated.Tables
   Spec.JsSyntax Spec.JsShape.
+From Soy Require Import Proofs.JsWfSplitBase Proofs.JsWfSplitNum Proofs.JsWfSplit Proofs.JsWfTail Proofs.JsWfLeaf.
 From Soy Require Import Proofs.JsWfBase Proofs.JsWfFrame Proofs.JsWfMonad.
 From Coq Require Import ZifyBool ZifyNat ZifyN Lia.
 Open Scope N_scope.
 #[local] Arguments assoc_s {A} k l : simpl never.
 
-Lemma emits_toks1 md c ts m s m' s' d :
-  lex_chunk LNormal c = Some (ts, LNormal) -> js_run md ts m s = Some (m', s', d) -> emits md [c] m s m' s' d.
-Proof.
-  intros L R. exists ts. split; [|exact R]. cbn [lex_chunks_from]. rewrite L. cbn. rewrite app_nil_r. reflexivity.
-Qed.
+Lemma text_okb_tail t ts m : text_okb t ts m = true -> tail_ok t ts m.
+Proof. destruct t; [intros _; exact I|exact id]. Qed.
+Ltac tail_solve := first [ exact I | reflexivity | (vm_compute; reflexivity) ].
 Lemma emits_cons0 md c b m s m1 s1 m2 s2 :
   emits md [c] m s m1 s1 [] -> emits md b m1 s1 m2 s2 [] -> emits md (c :: b) m s m2 s2 [].
 Proof. intros A B. exact (emits_cons md c b _ _ _ _ [] _ _ [] A B). Qed.
@@ -25,7 +24,8 @@ Ltac use_name :=
 Ltac esingle :=
   eapply emits_toks1;
   [ first [ (cbn [lex_chunk]; use_name; reflexivity) | (vm_compute; reflexivity) ]
-  | first [ reflexivity | (cbn; reflexivity) ] ].
+  | first [ reflexivity | (cbn; reflexivity) ]
+  | tail_solve ].
 Ltac echain :=
   lazymatch goal with
   | |- emits _ [] _ _ _ _ _ => apply emits_nil
@@ -106,18 +106,29 @@ Lemma run_num x cl s : js_run md [TNum x] (MWant cl) s = Some (MHave (is_int_tex
 Proof. reflexivity. Qed.
 Lemma run_neg_num x cl s : js_run md [TP PMinus; TNum x] (MWant cl) s = Some (MHave (is_int_text x), s, []).
 Proof. reflexivity. Qed.
+Lemma dec_tail n ts : tail_ok (dec_of_N n) ts (MHave true).
+Proof.
+  pose proof (dec_nonempty n) as Hn. pose proof (dec_digits_all n) as Hd. destruct (dec_of_N n) as [|c r] eqn:E; [congruence|].
+  unfold tail_ok. apply tail_okb_word; [apply digit_ident; apply last_forallb; [discriminate|exact Hd]|reflexivity|intros; reflexivity].
+Qed.
+Lemma neg_dec_tail n ts : tail_ok (45 :: dec_of_N n) ts (MHave true).
+Proof.
+  pose proof (dec_nonempty n) as Hn. pose proof (dec_digits_all n) as Hd.
+  unfold tail_ok. rewrite last_cons_ne by exact Hn. apply tail_okb_word; [apply digit_ident; apply last_forallb; assumption|reflexivity|intros; reflexivity].
+Qed.
 Lemma emits_num_Z z cl s : emits md [CNum (dec_of_Z z)] (MWant cl) s (MHave true) s [].
 Proof.
   destruct z as [|p|p]; cbn [dec_of_Z].
-  - eapply emits_toks1; [vm_compute; reflexivity|reflexivity].
-  - destruct (lex_num_pos p) as [L I]. eapply emits_toks1; [cbn [lex_chunk]; rewrite L; reflexivity|]. rewrite run_num, I. reflexivity.
+  - eapply emits_toks1; [vm_compute; reflexivity|reflexivity|tail_solve].
+  - destruct (lex_num_pos p) as [L I]. eapply emits_toks1; [cbn [lex_chunk]; rewrite L; reflexivity| |apply dec_tail]. rewrite run_num, I. reflexivity.
   - destruct (lex_num_pos p) as [L I]. eapply emits_toks1.
     + cbn [lex_chunk lex_num]. destruct (unsigned_pos p) as (Hu & _). rewrite Hu. reflexivity.
     + rewrite run_neg_num, I. reflexivity.
+    + apply neg_dec_tail.
 Qed.
 Lemma emits_num_N n cl s : emits md [CNum (dec_of_N n)] (MWant cl) s (MHave true) s [].
 Proof.
-  destruct (lex_num_N n) as [L I]. eapply emits_toks1; [cbn [lex_chunk]; rewrite L; reflexivity|]. rewrite run_num, I. reflexivity.
+  destruct (lex_num_N n) as [L I]. eapply emits_toks1; [cbn [lex_chunk]; rewrite L; reflexivity| |apply dec_tail]. rewrite run_num, I. reflexivity.
 Qed.
 End Num.
 
@@ -177,9 +188,9 @@ Proof.
   eapply (ext_step st st _ [] cs); [apply ext_refl; reflexivity|reflexivity].
 Qed.
 
-Lemma exprC_text t ts i : text_toks t = Some ts -> (forall cl s, js_run md ts (MWant cl) s = Some (MHave i, s, [])) -> exprC fmt [CText t] i.
+Lemma exprC_text t ts i : text_toks t = Some ts -> text_okb t ts (MHave i) = true -> (forall cl s, js_run md ts (MWant cl) s = Some (MHave i, s, [])) -> exprC fmt [CText t] i.
 Proof.
-  intros L R cl s. eapply emits_toks1; [|apply R]. cbn [lex_chunk]. unfold text_toks in L.
+  intros L Tk R cl s. eapply emits_toks1; [|apply R|apply text_okb_tail; exact Tk]. cbn [lex_chunk]. unfold text_toks in L.
   destruct (lex_text 0 LNormal t) as [[ts' m']|]; [|discriminate]. destruct m'; try discriminate. inversion L; subst. reflexivity.
 Qed.
 
@@ -219,13 +230,14 @@ Lemma post_op op_ a c i j : op_ <> OElvis -> expr_chk fmt fk a = Some i -> expr_
 Proof.
   intros Ho Ha Hc st st' Hs Hk H. unfold jop in H. jinv H. ihs.
   destruct (binop_tok op_ Ho) as (t & Lt & Ht).
-  assert (Lx : lex_chunk LNormal (CText (binop_sym op_)) = Some ([TP t], LNormal)).
-  { cbn [lex_chunk]. unfold text_toks in Lt. destruct (lex_text 0 LNormal (binop_sym op_)) as [[ts m]|]; [|discriminate]. destruct m; try discriminate. congruence. }
+  assert (Blk : forall i0 s0, emits md [CText (binop_sym op_); CText t_op_mid2] (MHave i0) s0 (MWant false) (KParen :: s0) []).
+  { intros i0 s0. clear - Ho. destruct op_; try congruence;
+      (eapply emits_block; [intro ip; cbn [render_chunks render_chunk]; reflexivity|vm_compute; reflexivity|vm_compute; reflexivity|reflexivity|reflexivity]). }
   eexists; split; [ext_build|]; split; [|proj; split; [congruence|]; split; [congruence|]; unfold called_ok in *; proj; assumption].
   intros cl s. norm_app.
   eapply emits_cons0; [esingle|]. eapply emits_app0; [apply C|]. eapply emits_cons0; [esingle|].
-  eapply emits_cons0; [eapply emits_toks1; [exact Lx|]; destruct Ht as [->|[x ->]]; reflexivity|].
-  eapply emits_cons0; [esingle|]. eapply emits_app0; [apply C0|]. echain.
+  match goal with |- emits _ (?x :: ?y :: ?r) _ _ _ _ _ => change (x :: y :: r) with ([x; y] ++ r) end.
+  eapply emits_app0; [apply Blk|]. eapply emits_app0; [apply C0|]. echain.
 Qed.
 
 Lemma post_elvis a c i j : expr_chk fmt fk a = Some i -> expr_chk fmt fk c = Some j ->
@@ -274,7 +286,7 @@ Proof.
     destruct Hc1 as [[-> ->]|[-> ->]].
     + subst m0. cbn [app]. eapply emits_app0; [apply C2|exact R].
     + destruct Hm as (j & ->). cbn [app]. eapply emits_cons0.
-      * eapply emits_toks1; [vm_compute; reflexivity|]. destruct HK as [->| ->]; reflexivity.
+      * eapply emits_toks1; [vm_compute; reflexivity| |tail_solve]. destruct HK as [->| ->]; reflexivity.
       * eapply emits_app0; [apply C2|exact R].
 Qed.
 
@@ -287,7 +299,7 @@ Proof.
   eexists. split; [ext_build|]. split; [|proj; split; [congruence|]; split; [congruence|]; unfold called_ok in *; proj; assumption].
   intros cl s. norm_app. destruct (R KArr s (MWant true) ltac:(right; reflexivity) eq_refl) as (m' & R' & Hm').
   eapply emits_cons0; [esingle|]. eapply emits_app0; [exact R'|].
-  eapply emits_toks1; [vm_compute; reflexivity|]. apply close_arr. exact Hm'.
+  eapply emits_toks1; [vm_compute; reflexivity| |tail_solve]. apply close_arr. exact Hm'.
 Qed.
 
 (* ---- map literals ---- *)
@@ -354,7 +366,7 @@ Proof.
   eexists. split; [ext_build|]. split; [|proj; split; [congruence|]; split; [congruence|]; unfold called_ok in *; proj; assumption].
   intros cl s. norm_app. destruct (R s (MKey true) eq_refl) as (m' & R' & Hm').
   eapply emits_cons0; [esingle|]. eapply emits_app0; [exact R'|].
-  eapply emits_toks1; [vm_compute; reflexivity|]. apply close_obj. exact Hm'.
+  eapply emits_toks1; [vm_compute; reflexivity| |tail_solve]. apply close_obj. exact Hm'.
 Qed.
 
 (* ---- jblock ---- *)
@@ -454,7 +466,7 @@ Proof.
       apply bind_inv in H. destruct H as (cl0 & st1 & Hp & Hr). destruct (Pre _ _ _ _ Hp) as (c1 & j1 & E1 & -> & P1 & S1 & B1 & K1).
       refine (Fin st1 c1 j1 _ E1 P1 S1 B1 ltac:(unfold called_ok in *; congruence) _ Hr).
       intros cl s. eapply emits_app0; [apply Ce|]. eapply emits_cons0; [esingle|].
-      eapply emits_toks1; [cbn [lex_chunk]; rewrite (lex_name_ident _ Ha); reflexivity|]. apply ident_tok_dot. exact Ha.
+      eapply emits_toks1; [cbn [lex_chunk]; rewrite (lex_name_ident _ Ha); reflexivity| |tail_solve]. apply ident_tok_dot. exact Ha.
     + (* expression *)
       apply bind_inv in H. destruct H as (cl0 & st1 & Hp & Hr). destruct (Pre _ _ _ _ Hp) as (c1 & j1 & E1 & -> & P1 & S1 & B1 & K1).
       apply bind_inv in Hr. destruct Hr as (bl & st2 & Hb & Hr). cbn [accok] in Ha. destruct (okn_some _ Ha) as (i & Hc).
@@ -473,7 +485,7 @@ Proof.
     - unfold lookup_var in Hb. apply bind_inv in Hb. destruct Hb as (g0 & stx & Hg & Hb2). jinv Hg.
       destruct (jsc_lookup (j_scope st) key) as [|c g] eqn:El; jinv Hb2.
       + split; [reflexivity|]. intros cl s. eapply emits_cons0; [esingle|].
-        eapply emits_toks1; [cbn [lex_chunk]; rewrite (lex_name_ident _ Hkey); reflexivity|]. apply ident_tok_dot. exact Hkey.
+        eapply emits_toks1; [cbn [lex_chunk]; rewrite (lex_name_ident _ Hkey); reflexivity| |tail_solve]. apply ident_tok_dot. exact Hkey.
       + split; [reflexivity|]. assert (Hn : name_ok (c :: g)) by (eapply frame_lookup; eauto; discriminate).
         intros cl s. esingle. }
   destruct Pb as [-> Cb].
@@ -498,10 +510,11 @@ Qed.
 Definition flagn (a : node) : bool := match expr_chk fmt fk a with Some i => i | None => false end.
 
 Lemma emits_text_local t ts m0 s0 m1 s1 base : text_toks t = Some ts -> js_run md ts m0 s0 = Some (m1, s1, []) ->
+  text_okb t ts m1 = true ->
   emode m0 = true -> forallb eframe s0 = true -> emits md [CText t] m0 (s0 ++ base) m1 (s1 ++ base) [].
 Proof.
-  intros L R Hm Hs. destruct (run_local md ts m0 s0 m1 s1 [] base Hm Hs R) as (_ & R').
-  eapply emits_toks1; [|exact R']. cbn [lex_chunk]. unfold text_toks in L.
+  intros L R Tk Hm Hs. destruct (run_local md ts m0 s0 m1 s1 [] base Hm Hs R) as (_ & R').
+  eapply emits_toks1; [|exact R'|apply text_okb_tail; exact Tk]. cbn [lex_chunk]. unfold text_toks in L.
   destruct (lex_text 0 LNormal t) as [[ts' m']|]; [|discriminate]. destruct m'; try discriminate. inversion L; subst. reflexivity.
 Qed.
 
@@ -514,7 +527,7 @@ Proof.
   intros Hall. induction ps as [|[t|i] ps IH]; intros m0 s0 m1 s1 st st' Hp Hm Hs0 Hs Hk H; cbn [apply_pieces pieces_run] in *.
   - jinv H. inversion Hp; subst. exists []. split; [apply ext_refl; reflexivity|]. repeat split; auto. intro base. apply emits_nil.
   - destruct (text_toks t) as [ts|] eqn:Et; [|discriminate]. destruct (js_run md ts m0 s0) as [[[m' s'] [|? ?]]|] eqn:Er; try discriminate.
-    destruct (emode m' && forallb eframe s') eqn:Ee; [|discriminate]. apply andb_prop in Ee. destruct Ee as [Em' Es'].
+    destruct (emode m' && forallb eframe s' && text_okb t ts m') eqn:Ee; [|discriminate]. apply andb_prop in Ee. destruct Ee as [Ee Tk]. apply andb_prop in Ee. destruct Ee as [Em' Es'].
     apply bind_inv in H. destruct H as (u & st1 & H1 & H2). jinv H1. units.
     match type of H2 with _ _ _ ?sa = _ => destruct (IH m' s' m1 s1 sa st' Hp Em' Es' ltac:(proj; assumption) ltac:(unfold called_ok in *; proj; assumption) H2) as (c2 & E2 & R2 & S2 & B2 & K2) end. proj.
     eexists. split; [ext_build|]. split; [|auto]. intro base. norm_app. eapply emits_cons0; [|apply R2].
@@ -533,7 +546,7 @@ Qed.
 
 Lemma emits_want_cl cs s r s' d cl : emits md cs (MWant false) s (MHave r) s' d -> emits md cs (MWant cl) s (MHave r) s' d.
 Proof.
-  intros (ts & L & R). exists ts. split; [exact L|]. destruct ts as [|t ts]; [discriminate R|]. cbn [js_run js_step] in *.
+  intros (ts & L & R & B). exists ts. split; [exact L|]. split; [|exact B]. destruct ts as [|t ts]; [discriminate R|]. cbn [js_run js_step] in *.
   destruct (step_want false s t) as [[[m1 s1] d1]|] eqn:E; [|discriminate R]. rewrite (step_want_cl cl s t _ E). exact R.
 Qed.
 
@@ -554,10 +567,10 @@ Proof.
     destruct m1; try discriminate. destruct closable; try discriminate. destruct s1 as [|[] [|? ?]]; try discriminate. destruct d1; try discriminate.
     destruct (R KCall s (MWant true) ltac:(left; reflexivity) eq_refl) as (m' & R' & Hm').
     eapply emits_cons0; [|eapply emits_app0; [exact R'|]].
-    + pose proof (emits_text_local _ _ _ _ _ _ s Ett Er eq_refl eq_refl) as Q. cbn [app] in Q.
-      destruct Q as (ts' & L' & R''). exists ts'. split; [exact L'|]. destruct ts' as [|t' ts']; [discriminate R''|]. cbn [js_run js_step] in *.
+    + pose proof (emits_text_local _ _ _ _ _ _ s Ett Er Et eq_refl eq_refl) as Q. cbn [app] in Q.
+      destruct Q as (ts' & L' & R'' & B''). exists ts'. split; [exact L'|]. split; [|exact B'']. destruct ts' as [|t' ts']; [discriminate R''|]. cbn [js_run js_step] in *.
       destruct (step_want false s t') as [[[m2 s2] d2]|] eqn:E2; [|discriminate R'']. rewrite (step_want_cl cl s t' _ E2). exact R''.
-    + eapply emits_toks1; [vm_compute; reflexivity|]. apply close_call. exact Hm'.
+    + eapply emits_toks1; [vm_compute; reflexivity| |tail_solve]. apply close_call. exact Hm'.
   - destruct (assoc_s name js_funcs) as [[vl alts]|] eqn:Ef.
     + destruct (pick_alt alts (List.length args)) as [ps|] eqn:Ep; [|discriminate].
       assert (Emap : map (fun a => match expr_chk fmt fk a with Some i => i | None => false end) args = map flagn args) by reflexivity.
@@ -594,8 +607,9 @@ Proof.
   - (* float *)
     destruct (float_node_string f) as [t|] eqn:Ef; [|discriminate]. destruct (lex_num t) as [ts|] eqn:El; [|discriminate].
     destruct (js_run md ts (MWant false) []) as [[[m1 s1] d1]|] eqn:Er; [|discriminate].
-    destruct m1; try discriminate. destruct s1; try discriminate. destruct d1; try discriminate. inversion Hc; subst.
-    eapply post_lift; eauto. apply post_emit. intros cl s. eapply emits_toks1; [cbn [lex_chunk]; rewrite El; reflexivity|].
+    destruct m1; try discriminate. destruct s1; try discriminate. destruct d1; try discriminate.
+    destruct (text_okb t ts (MHave isint)) eqn:Tk; [|discriminate]. inversion Hc; subst.
+    eapply post_lift; eauto. apply post_emit. intros cl s. eapply emits_toks1; [cbn [lex_chunk]; rewrite El; reflexivity| |apply text_okb_tail; exact Tk].
     apply expr_toks_run. exact Er.
   - (* string *) inversion Hc; subst. eapply post_lift; eauto. apply post_emit. intros cl s. esingle.
   - (* global *)
